@@ -1906,7 +1906,6 @@ func (g Gateway) Uint32SliceDelete(ctx context.Context, in *hydrapb.Uint32SliceD
 			}
 
 			guardID := treasureObj.StartTreasureGuard(true)
-			defer treasureObj.ReleaseTreasureGuard(guardID)
 
 			if err := treasureObj.Uint32SliceDelete(pair.GetValues()); err != nil {
 				errorsWhileDelete = append(errorsWhileDelete, err.Error())
@@ -1917,7 +1916,14 @@ func (g Gateway) Uint32SliceDelete(ctx context.Context, in *hydrapb.Uint32SliceD
 			// check the length of the slice in the treasure
 			// if the length is 0, we can delete the treasure
 			size, err := treasureObj.Uint32SliceSize()
-			if err != nil || size == 0 {
+
+			// DeleteTreasure takes the guard of this treasure itself: release ours first,
+			// otherwise the request waits for its own guard forever (and keeps the
+			// system lock, so the server can not even shut down).
+			treasureObj.ReleaseTreasureGuard(guardID)
+
+			// a treasure that holds no uint32 slice at all (err != nil) is left alone
+			if err == nil && size == 0 {
 				// delete the treasure
 				if err := swampObj.DeleteTreasure(pair.GetKey(), false); err != nil {
 					errorsWhileDelete = append(errorsWhileDelete, err.Error())
